@@ -15,9 +15,6 @@ NAN = float("nan")
 NOSHRINK = {
     # the model reads the four limits unconditionally, the C `||` chain stops at the first true test
     "c_inside": {"polygon_xlim", "polygon_ylim"},
-    # the statement reading `to_accumulate` is being repaired by another property (C11): which element it reads
-    # (`[idxdown]` or `[i]`) is not pinned here
-    "c_accumulate": {"to_accumulate"},
     # the model writes `date` whenever the month is valid; the kernel also requires a valid day
     "c_dateutils_getdate": {"date"},
 }
@@ -26,7 +23,8 @@ RETCODE = {"c_aggregate", "c_flathomogen", "c_islin", "c_eckhardt", "c_var2h", "
            "c_armodel_residual", "c_ensrank", "c_ad_test", "c_paretofront", "c_olsleverage", "c_coord2cell",
            "c_cell2rowcol", "c_cell2coord", "c_neighbours", "c_upstream", "c_downstream", "c_accumulate", "c_slope",
            "c_slice", "c_intersect", "c_voronoi", "c_inside", "c_exclude_zero_area_boundary",
-           "c_delineate_river", "c_delineate_flowpathlengths_in_catchment", "c_dateutils_add1month",
+           "c_delineate_river", "c_delineate_flowpathlengths_in_catchment", "c_delineate_boundary",
+           "c_dateutils_add1month",
            "c_dateutils_add1day", "c_dateutils_comparedates"}
 
 
@@ -233,6 +231,23 @@ def gen_cases(rng, scale):
         add("c_delineate_river", {"nrows": nrows, "ncols": ncols, "idxupstream": start, "nval": n}, D=geo,
             B={"flowdircode": FLOWCODE, "flowdir": fd, "npoints": [0], "idxcells": [7] * n, "data": [0.0] * (5 * n)},
             tag=f"len{n}")
+        na = rng.choice([0, 1, 1, 2, 3, ntot, max(ntot - 1, 1)])
+        ak = rng.choice(["valid", "valid", "valid", "dups", "outside"])
+        if ak == "valid":
+            area = rng.sample(range(ntot), min(na, ntot))
+        elif ak == "dups":
+            area = [rng.randrange(ntot) for _ in range(na)]
+        else:
+            area = [rng.choice([rng.randrange(ntot), -1, ntot, ntot + 2]) for _ in range(na)]
+        msk = [0] * ntot
+        for c in area:
+            if 0 <= c < ntot and rng.random() < 0.93:
+                msk[c] = 1
+        if rng.random() < 0.2:
+            msk = [rng.choice([0, 1, 1, 2]) for _ in range(ntot)]
+        add("c_delineate_boundary", {"nrows": nrows, "ncols": ncols, "nval": len(area)},
+            B={"idxcells_area": area, "buffer": [7] * len(area), "catchment_area_mask": msk,
+               "idxcells_boundary": [7] * len(area)}, tag=f"cells{len(area)}/{ak}")
         add("c_delineate_flowpathlengths_in_catchment",
             {"nrows": nrows, "ncols": ncols, "nval": n, "idxcell_outlet": cells(rng, ntot, 1, 0.85)[0]},
             B={"flowdircode": FLOWCODE, "flowdir": fd, "idxcells_area": cells(rng, ntot, n, 0.85),
